@@ -96,9 +96,10 @@ def _add_return_edges_for_patch_calls(
     }
     # The new return edges are only added to new_cfg and a callee's proxy
     # return edges are dropped when it gets its first real one, so determine
-    # the returning blocks of each callee up front: a patch may call the same
-    # function more than once.
+    # the returning blocks of every callee up front: a patch may call the same
+    # function more than once, and two callees may share a returning block.
     callee_returns: Dict[uuid.UUID, List[gtirb.CodeBlock]] = {}
+    calls: List[Tuple[uuid.UUID, gtirb.CfgNode]] = []
     for call_edge in call_edges:
         if not isinstance(call_edge.target, gtirb.CodeBlock):
             continue
@@ -115,7 +116,9 @@ def _add_return_edges_for_patch_calls(
             callee_returns[func_uuid] = returning_blocks(
                 cache, module, func_uuid
             )
+        calls.append((func_uuid, fallthrough_target))
 
+    for func_uuid, fallthrough_target in calls:
         add_return_edges_to_callee(
             cache,
             module,
